@@ -400,7 +400,7 @@ class _RealFinder:
             end = self._find_import_main_part_end(offset)
             if not self._has_enough_len_for_as(end):
                 return False
-            as_end = min(self._find_word_end(end + 1), len(self.code))
+            as_end = min(self._find_word_end(end + 1), len(self.code) - 1)
             as_start = self._find_word_start(as_end)
             return self.code[as_start : as_end + 1] == "as"
         except ValueError:
@@ -444,7 +444,7 @@ class _RealFinder:
             return False
         try:
             end = self._find_word_end(offset)
-            as_end = min(self._find_word_end(end + 1), len(self.code))
+            as_end = min(self._find_word_end(end + 1), len(self.code) - 1)
             as_start = self._find_word_start(as_end)
             return self.code[as_start : as_end + 1] == "as"
         except ValueError:
